@@ -204,7 +204,7 @@ def run(v) -> None:
                            "cfg": {"kernel": name, "nch": nch, "ns": ns, "iterations": len(prog), "events": [len(p) for p in prog]}})
     # ---- outcomes of the compiled kernels --------------------------------------------------------------
     # few channels x many samples: a kernel that re-blocks its work by the thread count then has long per-thread partial sums
-    shapes = [(1, 1), (2, 3), (4, 16), (3, 100), (33, 257)] if quick else [(1, 1), (2, 3), (3, 7), (4, 16), (3, 100), (2, 40), (8, 64), (33, 257), (16, 1000), (5, 2000)]
+    shapes = [(1, 1), (2, 3), (4, 16), (3, 100), (33, 257), (2, 1500), (3, 2500)] if quick else [(1, 1), (2, 3), (3, 7), (4, 16), (3, 100), (2, 40), (8, 64), (33, 257), (16, 1000), (5, 2000), (2, 1500), (3, 2500), (4, 5000), (2, 70001)]
     threads = [1, 3, 16] if quick else list(range(1, 17))
     chunks = [0, 1] if quick else [0, 1, 2, 7]
     reps = 3 if quick else 30
